@@ -358,7 +358,8 @@ impl Check for C15 {
         let thr = (*rng.pick(&THRESHOLDS)).to_string();
         let pool = &POOLS[lang];
         let cfg = GenCfg::swarm(rng);
-        let len = rng.range(0, 40);
+        // one run in 48 is a long stream (positions beyond 64, 128, 256)
+        let len = if rng.chance(1, 48) { rng.range(60, 300) } else { rng.range(0, 40) };
         let extra = rng.range(0, 8);
         let mut toks = gen_stream(rng, pool, &cfg, len + extra);
         // EOF at an arbitrary instant, biased to land inside in-flight state
